@@ -10,6 +10,10 @@ import (
 // recoveryMode reports whether this execution is a restarted process (booted from a crash state).
 func recoveryMode(x *Exec) (*CrashState, bool) {
 	cs, ok := x.Mem["crashState"].(*CrashState)
+	if msg, bad := x.Mem["crashReadMismatch"].(string); ok && bad && x.Mem["crashReadMismatchReported"] == nil {
+		x.Mem["crashReadMismatchReported"] = true
+		x.Report(&Violation{Rule: "durable-state-misread-at-restart", Signature: "reader", Msg: fmt.Sprintf("restart from %d durable writes: %s; the restarted engine decides on the misread state", cs.K, msg)})
+	}
 	return cs, ok
 }
 
